@@ -136,7 +136,7 @@ def string_function(chk, which, inputs, what):
 def percent_inputs(chk):
     ins = list(_strings(b"%a", 7 if chk.tier == "quick" else 10))
     ins += list(_strings(b"%s\x80 ", 4))
-    for _ in range(50 if chk.tier == "quick" else 2000):
+    for _ in range(50 if chk.tier == "quick" else 400):
         n = chk.rng.choice([8, 17, 64, 255, 256, 257, 1000])
         ins.append(bytes(chk.rng.choice(b"%%%abc d\xff") for _ in range(n)))
     return ins
@@ -147,7 +147,8 @@ def xmlesc_inputs(chk):
     special = b"\"&<>'\t\n\r\x01\x0b\x0c\x1f \x7f\x80a"
     ins += list(_strings(special, 2))
     ins += [bytes([b, 97, b]) for b in range(1, 256)]
-    for _ in range(30 if chk.tier == "quick" else 2000):
+    # (the interpreter's memory is a list: a text of n characters costs about n^2 steps through realloc/strcat)
+    for _ in range(30 if chk.tier == "quick" else 300):
         n = chk.rng.choice([3, 10, 100, 999, 1000, 1001])
         ins.append(bytes(chk.rng.choice(special + b"abc") for _ in range(n)))
     return ins
